@@ -14,7 +14,7 @@ import (
 	vs "git.torproject.org/pluggable-transports/snowflake.git/v2/verifvs"
 )
 
-var c02Fps = []string{"", fpB2, fpAbsent, fpDefault}
+var c02Fps = []string{"", fpB2, fpAbsent, fpB3, fpDefault, fpB4}
 var c02Beh = []int{ansPrompt, ansDuplicate, ansUnknownID, ansNever, ansLate}
 
 func expectedURL(c *clientRec) string {
@@ -26,6 +26,8 @@ func expectedURL(c *clientRec) string {
 		return urlB1
 	case fpB2:
 		return urlB2
+	case fpB3, fpB4:
+		return "" // listed without a relay address
 	}
 	return ""
 }
@@ -229,10 +231,12 @@ func clientPool(c *clientRec) int {
 }
 
 type c03State struct {
-	w           *world
-	regAtBar    int
-	debugAtBar  string
-	barrierSeen bool
+	sameSid      bool
+	distinctSids int
+	w            *world
+	regAtBar     int
+	debugAtBar   string
+	barrierSeen  bool
 }
 
 func init() {
@@ -260,6 +264,8 @@ func init() {
 			for i := 0; i < nC; i++ {
 				cn = append(cn, c03ClientNAT[vs.Choose("cnat", nCNat)])
 			}
+			// the last proxy may poll under the session id of the first one, whose poll is still pending
+			sameSid := x.Cfg["dup"] == "1" && nP >= 2 && vs.Choose("samesid", 2) == 1
 			w := newWorld()
 			st := &c03State{w: w}
 			x.User = st
@@ -270,13 +276,21 @@ func init() {
 				}
 				pr := w.addProxy(p.nat, pt, p.load, 0, ansPrompt)
 				pr.natWire = p.nat
+				if sameSid && i == nP-1 {
+					pr.sid = w.proxies[0].sid
+				}
+			}
+			st.distinctSids = nP
+			st.sameSid = sameSid
+			if sameSid {
+				st.distinctSids = nP - 1
 			}
 			for _, n := range cn {
 				w.addClient(n, "", time.Second, viaIPC)
 			}
 			var sb strings.Builder
 			for _, p := range w.proxies {
-				fmt.Fprintf(&sb, "P%d(%s,%d) ", p.idx, p.natWire, p.clients)
+				fmt.Fprintf(&sb, "P%d(%s,%s,%d) ", p.idx, p.sid, p.natWire, p.clients)
 			}
 			for _, c := range w.clients {
 				fmt.Fprintf(&sb, "C%d(%q) ", c.idx, c.nat)
@@ -300,12 +314,16 @@ func init() {
 			w := st.w
 			w.outcome(x)
 			checkNoPanicNoHang(x)
-			checkRouting(x, w)
+			if !st.sameSid {
+				// answers are routed by session id: with two polls under one id that routing is not defined
+				// (C02 is stated for pairwise distinct ids)
+				checkRouting(x, w)
+			}
 			if !st.barrierSeen {
 				return
 			}
-			if st.regAtBar != len(w.proxies) {
-				x.Fail("registration", "registered-count", "%d polls pending but %d registered", len(w.proxies), st.regAtBar)
+			if st.regAtBar != st.distinctSids {
+				x.Fail("registration", "registered-count", "%d polls pending under %d session ids but %d registered", len(w.proxies), st.distinctSids, st.regAtBar)
 			}
 			// /debug counts against the reference population
 			nR, nU, nK := 0, 0, 0
@@ -320,7 +338,8 @@ func init() {
 				}
 			}
 			want := fmt.Sprintf("\n\trestricted: %d\n\tunrestricted: %d\n\tunknown: %d", nR, nU, nK)
-			if !strings.HasPrefix(st.debugAtBar, fmt.Sprintf("current snowflakes available: %d\n", len(w.proxies))) || !strings.HasSuffix(st.debugAtBar, want) {
+			// (/debug counts registrations by session id, so it is only compared for distinct ids)
+			if !st.sameSid && (!strings.HasPrefix(st.debugAtBar, fmt.Sprintf("current snowflakes available: %d\n", len(w.proxies))) || !strings.HasSuffix(st.debugAtBar, want)) {
 				x.Fail("debug-counts", "debug-counts", "/debug reports %q for population R=%d U=%d K=%d", st.debugAtBar, nR, nU, nK)
 			}
 			// matches
